@@ -26,9 +26,9 @@ type (
 		Fun  SExpr
 		Args []SExpr
 	}
-	SIndex  struct{ X, I SExpr }
-	SSlice  struct{ X, Lo, Hi SExpr }
-	SUnary  struct {
+	SIndex struct{ X, I SExpr }
+	SSlice struct{ X, Lo, Hi SExpr }
+	SUnary struct {
 		Op string
 		X  SExpr
 	}
@@ -55,31 +55,32 @@ type Clause struct {
 }
 
 type Contract struct {
-	Key         string // full key: <pkgpath>.<FuncRel>
-	File        string
-	Line        int
-	Requires    []*Clause
-	Ensures     []*Clause
-	Modifies    []string
-	HasModifies bool
-	LoopInv     map[int][]*Clause
-	LoopDec     map[int]*Clause
-	Pure        bool
-	Inline      bool
-	Trusted     bool
-	StrictLen   bool
-	ThreadLocal bool
-	NoPanicOnly bool
-	Props       []string
-	Houdini     bool
-	Replay      string
-	AllocBound  *Clause
-	NilRecvOK   bool
-	SpecOnly    bool
-	Unverified  []string // interface contract: implementing types whose refinement is assumed, not proved
-	CheckAlias  bool // emit alias obligations on append into non-fresh spare capacity (C09/C10)
-	IsIface     bool // interface-level contract: <Iface>.<Method>
-	InlineAll   bool // harness: same-package callees are inlined instead of used by contract
+	Key                string // full key: <pkgpath>.<FuncRel>
+	File               string
+	Line               int
+	Requires           []*Clause
+	Ensures            []*Clause
+	Modifies           []string
+	HasModifies        bool
+	LoopInv            map[int][]*Clause
+	LoopDec            map[int]*Clause
+	Pure               bool
+	Inline             bool
+	Trusted            bool
+	StrictLen          bool
+	ThreadLocal        bool
+	NoPanicOnly        bool
+	Props              []string
+	Houdini            bool
+	Replay             string
+	AllocBound         *Clause
+	NilRecvOK          bool
+	SpecOnly           bool
+	Unverified         []string // interface contract: implementing types whose refinement is assumed, not proved
+	AssumeCalleeFrames bool     // havoc callees are assumed not to write caller-visible memory (listed in the evidence)
+	CheckAlias         bool     // emit alias obligations on append into non-fresh spare capacity (C09/C10)
+	IsIface            bool     // interface-level contract: <Iface>.<Method>
+	InlineAll          bool     // harness: same-package callees are inlined instead of used by contract
 }
 
 type SpecFn struct {
@@ -107,12 +108,13 @@ type SpecSet struct {
 	Fns       map[string]*SpecFn
 	Lemmas    []*Lemma
 	Axioms    []*Lemma
+	Aliases   map[string]string // spec name -> function key (pure closures referred to by name)
 	Invs      []*Lemma // package-level invariants over globals (established by init, never written elsewhere)
 	Order     []string
 }
 
 func newSpecSet() *SpecSet {
-	return &SpecSet{Contracts: map[string]*Contract{}, Fns: map[string]*SpecFn{}}
+	return &SpecSet{Contracts: map[string]*Contract{}, Fns: map[string]*SpecFn{}, Aliases: map[string]string{}}
 }
 
 // parseSpecFile parses one contract file belonging to package pkgPath.
@@ -160,7 +162,7 @@ func (ss *SpecSet) parseSpec(text, path, pkgPath string) error {
 				name = strings.TrimSpace(strings.TrimPrefix(rest, "func"))
 			}
 			key := name
-			if !strings.Contains(name, "/") || strings.HasPrefix(name, "(") {
+			if pkgPath != "" && (!strings.Contains(name, "/") || strings.HasPrefix(name, "(")) {
 				key = pkgPath + "." + name
 			}
 			if trusted && strings.Contains(name, "/") {
@@ -220,7 +222,15 @@ func (ss *SpecSet) parseSpec(text, path, pkgPath string) error {
 			}
 			c := &Clause{Text: body, Expr: e, Line: ln + 1, Note: note}
 			switch f[1] {
-			case "invariant":
+			case "alias":
+			// alias name = FuncKey
+			f := strings.SplitN(rest, "=", 2)
+			if len(f) != 2 {
+				return fail(fmt.Errorf("alias needs name = function"))
+			}
+			ss.Aliases[strings.TrimSpace(f[0])] = pkgPath + "." + strings.TrimSpace(f[1])
+			cur = nil
+		case "invariant":
 				cur.LoopInv[n] = append(cur.LoopInv[n], c)
 			case "decreases":
 				cur.LoopDec[n] = c
@@ -235,6 +245,8 @@ func (ss *SpecSet) parseSpec(text, path, pkgPath string) error {
 			cur.InlineAll = true
 		case "unverified":
 			cur.Unverified = append(cur.Unverified, strings.Fields(rest)...)
+		case "assume-callee-frames":
+			cur.AssumeCalleeFrames = true
 		case "no-alias-writes":
 			cur.CheckAlias = true
 		case "spec-only":
@@ -259,6 +271,14 @@ func (ss *SpecSet) parseSpec(text, path, pkgPath string) error {
 			}
 			fn.Pkg = pkgPath
 			ss.Fns[fn.Name] = fn
+			cur = nil
+		case "alias":
+			// alias name = FuncKey
+			f := strings.SplitN(rest, "=", 2)
+			if len(f) != 2 {
+				return fail(fmt.Errorf("alias needs name = function"))
+			}
+			ss.Aliases[strings.TrimSpace(f[0])] = pkgPath + "." + strings.TrimSpace(f[1])
 			cur = nil
 		case "invariant":
 			e, err := parseExpr(rest)
@@ -398,8 +418,8 @@ func lex(s string) ([]tok, error) {
 }
 
 type parser struct {
-	ts []tok
-	p  int
+	ts  []tok
+	p   int
 	src string
 }
 
